@@ -700,6 +700,25 @@ theorem nothing_visible_is_unknown_name (p : SeqPath) (pre post : List SeqItem) 
     (ho : (pre.length, o) ∈ runSeq p (pre ++ .site m x a :: post)) : o = .noname := by
   rw [(site_obs_iff p pre post m x a o).mp ho, hv]; rfl
 
+/-- **The instantiation registry is transparent.**  The one thing a resolution leaves behind for later call sites is
+    the function registry's table of template instantiations (`find_instantiation`, consulted by
+    `build_function_template_signature` / `build_intrinsic_template` before they substitute).  `runSeqR` threads that
+    table through every candidate of every call of the unit, in the order the type checker meets them; for every unit
+    whose declarations have distinct ids it shows exactly what `runSeq` — every call resolved from scratch — shows:
+    with the state the code really carries, **no call site influences a later one**. -/
+theorem registry_is_transparent (p : SeqPath) (items : List SeqItem)
+    (hD : ((allDeclared items).map (·.id)).Nodup) : runSeqR p items = runSeq p items :=
+  runSeqR_eq p items hD
+
+/-- non-vacuity: the second call of `template<T0, T1> f(T0, T1)` with the same argument types finds the instantiation the
+    first one registered, a call with another second argument registers a second one -/
+example :
+    let t : TCand := ⟨0, [.type, .type], [⟨.tvar 0, .in⟩, ⟨.tvar 1, .in⟩], 2⟩
+    let i : ETy := ⟨⟨{}, .scalar .int32⟩, .lvalue⟩
+    let f : ETy := ⟨⟨{}, .scalar .float32⟩, .lvalue⟩
+    let r1 := (callTR [] [t] [] [i, f]).2
+    r1.length = 1 ∧ (callTR r1 [t] [] [i, f]).2 = r1 ∧ ((callTR r1 [t] [] [i, i]).2).length = 2 := by decide
+
 /-- **A call in a template body** shows, when the call that instantiates the helper is type checked: nothing, if that
     instance has a body already; else the resolution on what is visible *at the instantiating call* (in the scope the
     helper was declared in) — not at the place of the template.  (`noname` alone: no helper of that number.) -/
